@@ -20,6 +20,18 @@ def run(ctx):
     ov = vlib.run_shards('C06o', IMPORTS, 'tree * tree', 'op_verdict', O, per_shard=max(4, len(O) // 8 + 1))
     failures = []
     arms = set()
+    # the verified checker arm_ok, evaluated arm by arm: an arm it rejects is a concrete failing configuration of the property
+    try:
+        rc2, ev = vlib.coq_eval('C06', 'From Coq Require Import List NArith ZArith Floats.\nImport ListNotations.\nFrom SCAD Require Import Macro.Syntax Macro.Check Gen.MacroArms.',
+                                'map (fun p => Z.of_nat (fst p)) (filter (fun p => negb (arm_ok scadop_decl (snd p))) (combine (seq 0 (length macro_arms)) macro_arms))')
+        bad = [int(x) for x in re.findall(r'(-?\d+)%Z', ev)] if rc2 == 0 else []
+    except Exception:
+        bad = []
+    for k in bad:
+        case = next((c for c in M if re.match(r'\((\d+)%nat', c) and int(re.match(r'\((\d+)%nat', c).group(1)) == k), '')
+        failures.append({'clause': 'arm_denotes_its_documented_form_once', 'key': 'badarm%d' % k, 'arm_index': k, 'arm': arm_text(k),
+                         'what': 'the verified checker arm_ok rejects this arm: either an argument expression is not used exactly once, or the node built is not the variant/fields the form denotes (Macro/Denote.v)',
+                         'example_call_through_rustc': case[:900]})
     for case, v in zip(M, mv):
         k = int(re.match(r'\((\d+)%nat', case).group(1)); arms.add(k)
         if v[0] != 0:
